@@ -162,10 +162,40 @@ func (h *hEnv) apply(op HOp) {
 			if _, _, err := r.Delete(map[int64]struct{}{0: {}}); !errors.Is(err, klevdb.ErrReadonly) {
 				h.fail("Delete on a read-only handle returned %v", err)
 			}
+			// the other calls a read-only handle accepts; the degenerate one is a Backup whose target is the directory
+			// the handle has open, under any spelling (whatever it returns, no log file may change)
+			parent := filepath.Dir(h.dir)
+			var berr error
+			switch (h.step + i) % 5 {
+			case 0:
+				berr = r.Backup(h.dir)
+			case 1:
+				berr = r.Backup(h.dir + "/.")
+			case 2:
+				link := filepath.Join(parent, "link-to-log")
+				_ = os.Symlink(h.dir, link)
+				berr = r.Backup(link)
+			case 3:
+				other := filepath.Join(parent, fmt.Sprintf("ro-backup-%d", h.step))
+				_ = os.MkdirAll(other, 0700)
+				if berr = r.Backup(other); berr != nil {
+					h.fail("Backup through a read-only handle failed: %v", berr)
+				}
+			case 4:
+				berr = r.Backup(filepath.Join(parent, "x", "..", filepath.Base(h.dir)))
+			}
+			_ = berr
+			h.st.Inc("ro_backup_calls")
+			_ = r.GC(0)
+			_, _ = r.Sync()
 			for n, b := range snapshotDir(h.dir) {
 				if strings.HasSuffix(n, ".log") && string(logs[n]) != string(b) {
-					h.fail("log file %s changed while only read-only handles were used", n)
+					h.fail("log file %s changed (len %d -> %d) while only read-only handles were used (queries, rejected Publish/Delete, Backup variant %d, GC, Sync)", n, len(logs[n]), len(b), (h.step+i)%5)
 				}
+				delete(logs, n)
+			}
+			for n := range logs {
+				h.fail("log file %s disappeared while only read-only handles were used", n)
 			}
 			h.flags["ro-observed"] = true
 		}
